@@ -299,7 +299,7 @@ def generate(tier, rng):
         cases += list(_exhaustive_prog(PSMALL, 3))
     cases += list(_exhaustive_prog(PKW, 3 if quick else 5))
     cases += list(_exhaustive_histx(4 if quick else 5))
-    nh, np_ = (5000, 2500) if quick else (60000, 30000)
+    nh, np_ = (3600, 1500) if quick else (60000, 30000)
     for _ in range(nh):
         cases.append(_rand_hist(rng, 2, 9 if quick else 12))
     for _ in range(np_):
